@@ -12,6 +12,7 @@ package main
 //                         is captured and searched for every textual form of the client address.
 
 import (
+	"runtime/debug"
 	"bytes"
 	"encoding/hex"
 	"encoding/json"
@@ -428,6 +429,7 @@ func (w *vtWorld) run(idx int, cs vtCase) map[string]any {
 		defer func() {
 			if r := recover(); r != nil {
 				res["panic"] = fmt.Sprint(r)
+				res["panic_stack"] = string(debug.Stack())
 			}
 		}()
 		w.cm.handleNewTCPConn(w.rm, c, dst)
@@ -690,6 +692,7 @@ func TestVerifTaintPre(t *testing.T) {
 				defer func() {
 					if r := recover(); r != nil {
 						res["panic"] = fmt.Sprint(r)
+				res["panic_stack"] = string(debug.Stack())
 					}
 				}()
 				w.cm.handleNewTCPConn(w.rm, c, w.noRegDst)
@@ -761,6 +764,7 @@ func TestVerifTaintPre(t *testing.T) {
 				defer func() {
 					if r := recover(); r != nil {
 						res["panic"] = fmt.Sprint(r)
+				res["panic_stack"] = string(debug.Stack())
 					}
 				}()
 				w.cm.handleNewConn(w.rm, sc.(*net.TCPConn))
